@@ -30,4 +30,14 @@ for sid in sorted(d for d in os.listdir(os.path.join(ROOT, "seeded")) if os.path
 n = len(rows) - 2; c = sum(1 for sid, r in res.items() if r.get("caught_by"))
 rows.append(""); rows.append(f"{n} seeded changes kept; {c} caught by the quick check of the property they break (tier in brackets: P = a proved obligation now fails, S = structural obligation, B = bounded run-time contract).")
 s = put(s, "SEEDED", "\n".join(rows))
+# harmless edits (false-alarm measurement)
+bp = os.path.join(ROOT, "benign", "RESULTS.json")
+if os.path.exists(bp) and "<!-- BENIGN:BEGIN -->" in s:
+    br = json.load(open(bp)); brow = ["| harmless edit | function | kind of edit | checks run (quick; deductive + structural tiers" + ("" if not any(v.get("bounded_tier_run") for v in br.values()) else ", some with the bounded tier") + ") | contract still applies? | false alarm |", "|---|---|---|---|---|---|"]
+    for bid in sorted(br):
+        v = br[bid]; mp = os.path.join(ROOT, "benign", bid, "meta.json"); m = json.load(open(mp)) if os.path.exists(mp) else {}
+        notes = sum(len(c.get("notes", [])) for c in v.get("checks", {}).values())
+        brow.append(f"| `{bid}` | {str(m.get('function', ''))[:60].replace('|', '/')} | {str(m.get('kind_of_refactor', ''))[:80].replace('|', '/')} | {', '.join(v.get('checks', {}))} | {'re-proved on the edited source' if not notes else 'stale for the edited function(s): announced (NOTE), not proved on that tree'} | {', '.join(v.get('false_alarms', [])) or 'none'} |")
+    brow += ["", f"{len(br)} harmless edits; {sum(1 for v in br.values() if v.get('false_alarms'))} with a false alarm; {sum(1 for v in br.values() if v.get('faults'))} with a checker fault."]
+    s = put(s, "BENIGN", "\n".join(brow))
 open(os.path.join(ROOT, "DESIGN.md"), "w").write(s); print("DESIGN.md tables regenerated:", len(lines), "known,", n, "seeded")
